@@ -417,6 +417,8 @@ func (c *Ctx) loopSpec(fr *Frame, ord int) *LoopSpec {
 func (c *Ctx) enterLoop(fr *Frame, head *ssa.BasicBlock, ord int, st *State) *State {
 	spec := c.loopSpec(fr, ord)
 	name := c.relName(fr.fn)
+	c.curLoopHead = head
+	defer func() { c.curLoopHead = nil }()
 	if spec != nil {
 		for _, inv := range spec.Invariants {
 			g := c.evalClause(fr, st, inv, nil)
@@ -643,6 +645,8 @@ func (c *Ctx) edge(fr *Frame, from, to *ssa.BasicBlock, st *State, cond string, 
 		}
 		save := c.curReach
 		c.curReach = cond
+		c.curLoopHead = to
+		defer func() { c.curLoopHead = nil }()
 		name := c.relName(fr.fn)
 		for _, inv := range spec.Invariants {
 			g := c.evalClause(fr, st, inv, nil)
